@@ -53,6 +53,7 @@ THEOREMS = [
     "Nix.C17.C17_reopen_not_refused",
     "Nix.C17.C17_locking_fapl_refuses",
     "Nix.C17.C17_detached_loses",
+    "Nix.C17.C17_detached_open_loses",
     "Nix.C17.C17_locking_close_ok",
     "Nix.C17.C17_last_flush_wins",
     "Nix.C17.C17_late_writes_bounded",
@@ -125,8 +126,14 @@ def _run_py(ctx, spec, tag, timeout=300):
         p = subprocess.run([PY, "-m", "harness.props.c17_child", sp], cwd=core.VERIF, env=env,
                            stdout=subprocess.PIPE, stderr=subprocess.PIPE, text=True, timeout=timeout)
     except subprocess.TimeoutExpired:
-        raise InfraError("C17 child timed out on %s" % json.dumps(spec)[:300])
+        raise _infra("C17 child timed out on %s" % json.dumps(spec)[:300])
     return p.returncode, p.stderr[-1500:]
+
+
+def _infra(msg):
+    """an infrastructure failure of this module: also named on stdout (tools that drive ./check keep stdout only)"""
+    print("INFRA C17: %s" % msg[:600], flush=True)
+    return InfraError(msg)
 
 
 def _load(path):
@@ -169,13 +176,13 @@ def run_chain(ctx, chain, tag, upto=None, final_end=None):
         rc, err = _run_py(ctx, spec, "%s.g%d" % (tag, i))
         o = _load(out)
         if o is None:
-            raise InfraError("C17 child produced no record (rc=%s) for %s: %s" % (rc, json.dumps(spec)[:200], err))
+            raise _infra("C17 child produced no record (rc=%s) for %s: %s" % (rc, json.dumps(spec)[:200], err))
         if o.get("open_error"):
             # the file left by the previous generation cannot be opened by the next writer
             recs.append({"spec": spec, "rc": rc, "out": o, "obs": {}, "end": end})
             break
         if rc != -9:
-            raise InfraError("C17 child was not killed by SIGKILL (rc=%s): %s" % (rc, err))
+            raise _infra("C17 child was not killed by SIGKILL (rc=%s): %s" % (rc, err))
         obs = observe(ctx, path, "%s.g%d" % (tag, i))
         recs.append({"spec": spec, "rc": rc, "out": o, "obs": obs, "end": end})
         if check_generation(chain, i, recs[-1]) is not None:
@@ -230,7 +237,7 @@ def gen_chain(rng, quick, n_gens=None, stratum=None):
     return {"kind": "chain", "seed": rng.randrange(10 ** 9), "gens": gens}
 
 
-SPECIAL_PROFILES = ["inplace", "delete_only", "append_only", "attrs_only"]
+SPECIAL_PROFILES = ["overwrite", "small_append", "delete_only", "append_only", "attrs_only"]
 
 
 def gen_profile_chain(rng, profile, quick, reopen=False):
@@ -238,7 +245,7 @@ def gen_profile_chain(rng, profile, quick, reopen=False):
     flush point; killed after the last flush.  With reopen: the single-kind phases run in a second writer that
     re-opens the file read-write."""
     n1 = rng.randrange(10, 18 if quick else 28)
-    k = rng.choice([1, 1, 2])
+    k = rng.choice([1, 2, 2, 3])
     later = [rng.randrange(3, 9) for _ in range(k)]
     end = rng.choice(["flush", "flush", "flush_flush", "close"])
     comp = rng.choice(FILE_COMPRESSIONS)
@@ -339,7 +346,7 @@ def model_events(rng, chain, recs):
     expect = [("ok", None, "reset")]
     if chain["gens"] and chain["gens"][0].get("fapl"):
         # probe: the model's open path under the lower bound the child put on the property list
-        evs.append(["cfg", chain["gens"][0]["fapl"][0], True])
+        evs.append(["cfg", chain["gens"][0]["fapl"][0], True, True])
         expect.append(("ok", None, "cfg"))
     store = {}          # the model's idea of the file content (mirror kept only to compute put/del events)
     exists = False
@@ -769,7 +776,7 @@ def correspondence(ctx):
             "rule": "kill chains: %d writer processes in %d chains (each: seeded history over all entity kinds, "
                     "walk recorded at every flush point, flush/close/with-exit, SIGKILL, reopen r + a in a fresh "
                     "process), model fed the put/del differences between flush points plus random write-back "
-                    "events (incl. chains with a phase of a single kind of write - in place, deletions, appends, attributes "
+                    "events (incl. chains with a phase of a single kind of write - overwrites in place, small appends, deletions, appends, attributes "
                     "- between two flush points, and %d probes of the open-path model: writers whose property list "
                     "carries library-version bounds, model vs libhdf5); File.__init__'s decision for every "
                     "(path state, mode) with the h5py call and flag it reaches; session stream: %d in-process call "
@@ -876,7 +883,7 @@ def oracle(ctx, broken, hints):
     while kills < n_own:
         i = len(own)
         if i % 2 == 1:
-            # a phase of one kind of write (in place / deletions / appends / attributes) between two flush points
+            # a phase of one kind of write (overwrites / small appends / deletions / appends / attributes) between two flush points
             c = gen_profile_chain(rng, SPECIAL_PROFILES[(i // 2) % len(SPECIAL_PROFILES)], quick,
                                   reopen=(i % 10 == 9))
         else:
